@@ -467,7 +467,17 @@ pub fn judge_fault_free(plan: &ClientPlan, run: &ClientRun) -> Judged {
                                 }
                             }
                             if ok && cleanup.cancel.end != EndSpec::Completion {
-                                // the terminal refused that reversal: the statement is silent from here
+                                // the terminal refused that reversal: the reported pre-authorisation
+                                // is still open, so end-of-day must not be requested over it
+                                j.stats.hit("probe.dangling_reversal_refused");
+                                if rest[k..].iter().any(|q| q.cf == (0x06, 0x50)) {
+                                    j.fail(
+                                        "C19",
+                                        "eod_over_dangling",
+                                        name,
+                                        format!("the terminal refused the reversal of the dangling pre-authorisation {r2}, yet {name} went on to request end-of-day over it"),
+                                    );
+                                }
                                 k = usize::MAX;
                             }
                         }
